@@ -54,7 +54,7 @@ def absorb(ctx, r, events, what, viol_sig=None, expect_summary=True):
         elif t == "summary":
             summaries.append(ev)
         elif t == "note":
-            ctx.note(str(ev.get("msg", ""))[:300])
+            ctx.note(str(ev.get("msg", ""))[:900])
         elif t == "inconclusive":
             ctx.inconc(str(ev.get("msg", ""))[:300])
     if expect_summary and not summaries:
